@@ -433,56 +433,67 @@ fn cur_path(tag: &str) -> std::path::PathBuf {
     dir.join(format!("{tag}.cur"))
 }
 
-/// Worker process entry (`VF_SIM2_WORKER` holds the JSON spec).
+/// Worker process entry (`VF_SIM2_WORKER` holds the JSON spec). One worker serves every
+/// configuration of the run (the simulator is compiled/loaded once per worker) and prints one
+/// `VF_SIM2_RESULT` line per configuration.
 pub fn worker(spec: &str) {
     let v: Value = vf_explore::serde_json::from_str(spec).unwrap_or_else(|e| machinery(&format!("bad worker spec: {e}")));
-    let cfg = Cfg::from_json(&v["cfg"]);
     let cur = cur_path(v["tag"].as_str().unwrap_or("x"));
-    let note = |prefix: &[usize], n: u64| {
-        let _ = std::fs::write(&cur, json!({"decisions": prefix, "executed": n}).to_string());
-    };
+    let kind = v["kind"].as_str().unwrap_or("").to_string();
     let mut sims = Sims::new();
-    match v["kind"].as_str().unwrap_or("") {
-        "root" => {
-            // the default execution, twice: determinism guard + the root of the search tree
-            note(&[], 0);
-            let mut c1 = Chooser::replay(vec![]);
-            let e1 = sims.run(cfg, &mut c1);
-            let mut c2 = Chooser::replay(vec![]);
-            let e2 = sims.run(cfg, &mut c2);
-            let same = c1.trace == c2.trace
-                && match (&e1, &e2) {
-                    (Exec::Done { outcome: a, .. }, Exec::Done { outcome: b, .. }) => a == b,
-                    _ => false,
-                };
-            let ex = explore_from(vec![vec![]], 0, None, &note, |ch| sims.run(cfg, ch));
-            println!("VF_SIM2_RESULT {}", json!({"same": same, "points": c1.trace.len(), "explored": ex.to_json()}));
-        }
-        "replay" => {
-            let dec: Vec<usize> = v["decisions"].as_array().map(|a| a.iter().map(|x| x.as_u64().unwrap_or(0) as usize).collect()).unwrap_or_default();
-            let ex = explore_from(vec![dec], 0, None, &note, |ch| sims.run(cfg, ch));
-            println!("VF_SIM2_RESULT {}", json!({"explored": ex.to_json()}));
-        }
-        _ => {
-            let bound = v["bound"].as_u64().unwrap_or(1) as usize;
-            let (shard, nshards) = (v["shard"].as_u64().unwrap_or(0) as usize, v["nshards"].as_u64().unwrap_or(1) as usize);
-            note(&[], 0);
-            let mut root = Chooser::replay(vec![]);
-            let _ = sims.run(cfg, &mut root);
-            let deadline = Instant::now() + Duration::from_secs(v["wall_s"].as_u64().unwrap_or(600));
-            let starts: Vec<Vec<usize>> = children(&root, 0, bound).into_iter().enumerate().filter(|(i, _)| i % nshards == shard).map(|(_, p)| p).collect();
-            let ex = explore_from(starts, bound, Some(deadline), &note, |ch| sims.run(cfg, ch));
-            println!("VF_SIM2_RESULT {}", json!({"explored": ex.to_json()}));
+    for (idx, job) in v["jobs"].as_array().cloned().unwrap_or_default().iter().enumerate() {
+        let cfg = Cfg::from_json(&job["cfg"]);
+        let note = |prefix: &[usize], n: u64| {
+            let _ = std::fs::write(&cur, json!({"job": idx, "decisions": prefix, "executed": n}).to_string());
+        };
+        match kind.as_str() {
+            "root" => {
+                // the default execution, twice: determinism guard + the root of the search tree
+                note(&[], 0);
+                let mut c1 = Chooser::replay(vec![]);
+                let e1 = sims.run(cfg, &mut c1);
+                let mut c2 = Chooser::replay(vec![]);
+                let e2 = sims.run(cfg, &mut c2);
+                let same = c1.trace == c2.trace
+                    && match (&e1, &e2) {
+                        (Exec::Done { outcome: a, .. }, Exec::Done { outcome: b, .. }) => a == b,
+                        _ => false,
+                    };
+                let ex = explore_from(vec![vec![]], 0, None, &note, |ch| sims.run(cfg, ch));
+                println!("VF_SIM2_RESULT {}", json!({"job": idx, "same": same, "points": c1.trace.len(), "explored": ex.to_json()}));
+            }
+            "replay" => {
+                let dec: Vec<usize> = job["decisions"].as_array().map(|a| a.iter().map(|x| x.as_u64().unwrap_or(0) as usize).collect()).unwrap_or_default();
+                let ex = explore_from(vec![dec], 0, None, &note, |ch| sims.run(cfg, ch));
+                println!("VF_SIM2_RESULT {}", json!({"job": idx, "explored": ex.to_json()}));
+            }
+            _ => {
+                let bound = job["bound"].as_u64().unwrap_or(1) as usize;
+                let (shard, nshards) = (v["shard"].as_u64().unwrap_or(0) as usize, v["nshards"].as_u64().unwrap_or(1) as usize);
+                note(&[], 0);
+                let mut root = Chooser::replay(vec![]);
+                let _ = sims.run(cfg, &mut root);
+                let deadline = Instant::now() + Duration::from_secs(v["wall_s"].as_u64().unwrap_or(600));
+                let starts: Vec<Vec<usize>> = children(&root, 0, bound).into_iter().enumerate().filter(|(i, _)| i % nshards == shard).map(|(_, p)| p).collect();
+                let ex = explore_from(starts, bound, Some(deadline), &note, |ch| sims.run(cfg, ch));
+                println!("VF_SIM2_RESULT {}", json!({"job": idx, "explored": ex.to_json()}));
+            }
         }
     }
     let _ = std::fs::remove_file(&cur);
 }
 
-enum WorkerEnd {
-    Result(Value),
-    /// the process died (abort inside the simulated program): decision prefix it was running,
-    /// executions completed before, message found on its stderr
-    Crashed { decisions: Vec<usize>, executed: u64, message: String },
+/// What a worker left behind: its per-job results and, if the process died (abort inside the
+/// simulated program), the job and decision prefix it was running plus the message on stderr.
+struct WorkerEnd {
+    results: Vec<Value>,
+    crash: Option<Crash>,
+}
+struct Crash {
+    job: usize,
+    decisions: Vec<usize>,
+    executed: u64,
+    message: String,
 }
 
 fn spawn_worker(mut spec: Value, tag: &str) -> std::process::Child {
@@ -502,14 +513,17 @@ fn spawn_worker(mut spec: Value, tag: &str) -> std::process::Child {
 fn wait_worker(child: std::process::Child, tag: &str) -> WorkerEnd {
     let out = child.wait_with_output().unwrap_or_else(|e| machinery(&format!("worker {tag}: {e}")));
     let txt = String::from_utf8_lossy(&out.stdout);
-    if out.status.success()
-        && let Some(line) = txt.lines().find_map(|l| l.strip_prefix("VF_SIM2_RESULT "))
-    {
-        return WorkerEnd::Result(vf_explore::serde_json::from_str(line).unwrap_or_else(|e| machinery(&format!("worker {tag}: bad result: {e}"))));
-    }
     let err = String::from_utf8_lossy(&out.stderr);
     if let Some(l) = txt.lines().chain(err.lines()).find(|l| l.starts_with("MACHINERY-ERROR")) {
         machinery(&format!("worker {tag}: {l}"));
+    }
+    let results: Vec<Value> = txt
+        .lines()
+        .filter_map(|l| l.strip_prefix("VF_SIM2_RESULT "))
+        .map(|l| vf_explore::serde_json::from_str(l).unwrap_or_else(|e| machinery(&format!("worker {tag}: bad result: {e}"))))
+        .collect();
+    if out.status.success() {
+        return WorkerEnd { results, crash: None };
     }
     let cur = std::fs::read_to_string(cur_path(tag)).ok().and_then(|t| vf_explore::serde_json::from_str::<Value>(&t).ok());
     let Some(cur) = cur else {
@@ -522,10 +536,14 @@ fn wait_worker(child: std::process::Child, tag: &str) -> WorkerEnd {
         .position(|l| l.contains("panicked at"))
         .map(|i| format!("{} {}", lines[i].trim(), lines.get(i + 1).map(|s| s.trim()).unwrap_or("")))
         .unwrap_or_else(|| format!("process ended with {:?}: {}", out.status, err.chars().take(300).collect::<String>()));
-    WorkerEnd::Crashed {
-        decisions: cur["decisions"].as_array().map(|a| a.iter().map(|x| x.as_u64().unwrap_or(0) as usize).collect()).unwrap_or_default(),
-        executed: cur["executed"].as_u64().unwrap_or(0),
-        message,
+    WorkerEnd {
+        results,
+        crash: Some(Crash {
+            job: cur["job"].as_u64().unwrap_or(0) as usize,
+            decisions: cur["decisions"].as_array().map(|a| a.iter().map(|x| x.as_u64().unwrap_or(0) as usize).collect()).unwrap_or_default(),
+            executed: cur["executed"].as_u64().unwrap_or(0),
+            message,
+        }),
     }
 }
 
@@ -534,15 +552,40 @@ fn stable(msg: &str) -> String {
     msg.rsplit(": ").next().unwrap_or(msg).chars().filter(|c| !c.is_ascii_digit()).take(60).collect::<String>().trim().to_string()
 }
 
-fn merge_end(total: &mut Explored, end: WorkerEnd, aborted: &mut u64) {
-    match end {
-        WorkerEnd::Result(v) => total.merge(Explored::from_json(&v["explored"])),
-        WorkerEnd::Crashed { decisions, executed, message } => {
-            *aborted += 1;
-            total.executions += executed + 1;
-            total.outcomes.insert(format!("abort:{}", stable(&message)));
-            if total.violation.is_none() {
-                total.violation = Some(("abort".into(), format!("the simulated program aborted: {message}"), decisions));
+/// Per-job accumulation of everything the workers report.
+struct Acc {
+    ex: Explored,
+    aborted: u64,
+    /// jobs a crashed worker never got to (its shard of them is unexplored)
+    lost_shards: u64,
+    same: bool,
+}
+
+fn absorb(acc: &mut [Acc], end: WorkerEnd) {
+    let mut seen = vec![false; acc.len()];
+    for r in end.results {
+        let j = r["job"].as_u64().unwrap_or(0) as usize;
+        if j < acc.len() {
+            seen[j] = true;
+            acc[j].ex.merge(Explored::from_json(&r["explored"]));
+            if r.get("same").is_some() && r["same"] != true {
+                acc[j].same = false;
+            }
+        }
+    }
+    if let Some(c) = end.crash {
+        if c.job < acc.len() {
+            let a = &mut acc[c.job];
+            a.aborted += 1;
+            a.ex.executions += c.executed + 1;
+            a.ex.outcomes.insert(format!("abort:{}", stable(&c.message)));
+            if a.ex.violation.is_none() {
+                a.ex.violation = Some(("abort".into(), format!("the simulated program aborted: {}", c.message), c.decisions));
+            }
+            for (j, a) in acc.iter_mut().enumerate() {
+                if j > c.job && !seen[j] {
+                    a.lost_shards += 1;
+                }
             }
         }
     }
@@ -561,15 +604,14 @@ pub fn run(rep: &mut Report, thorough: bool, replay: Option<Value>) {
     if let Some(c) = replay {
         let cfg = Cfg::from_json(&c["config"]);
         let tag = format!("{pid}-replay");
-        let end = wait_worker(spawn_worker(json!({"kind": "replay", "cfg": cfg.json(), "decisions": c["decisions"]}), &tag), &tag);
-        let mut ex = Explored::default();
-        let mut aborted = 0;
-        merge_end(&mut ex, end, &mut aborted);
-        println!("replay {}: outcomes {:?}", cfg.key(), ex.outcomes);
-        if let Some((k, m, _)) = &ex.violation {
+        let end = wait_worker(spawn_worker(json!({"kind": "replay", "jobs": [{"cfg": cfg.json(), "decisions": c["decisions"]}]}), &tag), &tag);
+        let mut acc = vec![Acc { ex: Explored::default(), aborted: 0, lost_shards: 0, same: true }];
+        absorb(&mut acc, end);
+        println!("replay {}: outcomes {:?}", cfg.key(), acc[0].ex.outcomes);
+        if let Some((k, m, _)) = &acc[0].ex.violation {
             println!("replay: {k}: {m}");
         }
-        std::process::exit(if ex.violation.is_some() { 1 } else { 0 });
+        std::process::exit(if acc[0].ex.violation.is_some() { 1 } else { 0 });
     }
 
     let mut cfgs = configs(thorough);
@@ -584,42 +626,42 @@ pub fn run(rep: &mut Report, thorough: bool, replay: Option<Value>) {
             })
             .collect();
     }
-    rep.bound("deviation_bound_per_config", json!(cfgs.iter().map(|(c, b)| json!([c.key(), bound_override.unwrap_or(*b)])).collect::<Vec<_>>()));
-    let wall_per_cfg: u64 = std::env::var("VF_C40_WALL").ok().and_then(|s| s.parse().ok()).unwrap_or(if thorough { 170 } else { 60 });
+    let cfgs: Vec<(Cfg, usize)> = cfgs.into_iter().map(|(c, b)| (c, bound_override.unwrap_or(b))).collect();
+    rep.bound("deviation_bound_per_config", json!(cfgs.iter().map(|(c, b)| json!([c.key(), b])).collect::<Vec<_>>()));
+    let wall_per_cfg: u64 = std::env::var("VF_C40_WALL").ok().and_then(|s| s.parse().ok()).unwrap_or(if thorough { 150 } else { 40 });
     rep.bound("wall_cap_s_per_config", wall_per_cfg);
     let nshards = if thorough { vf_explore::ncpu().clamp(1, 12) } else { vf_explore::ncpu().clamp(1, 4) };
     rep.bound("worker_processes", nshards);
-    for (cfg, bound) in cfgs {
-        let bound = bound_override.unwrap_or(bound);
+
+    let jobs: Vec<Value> = cfgs.iter().map(|(c, b)| json!({"cfg": c.json(), "bound": b})).collect();
+    let mut acc: Vec<Acc> = cfgs.iter().map(|_| Acc { ex: Explored::default(), aborted: 0, lost_shards: 0, same: true }).collect();
+    let t0 = Instant::now();
+    // root worker: compiles the simulator once, runs every configuration's default execution twice
+    let tag = format!("{pid}-root");
+    absorb(&mut acc, wait_worker(spawn_worker(json!({"kind": "root", "jobs": jobs}), &tag), &tag));
+    for (a, (cfg, _)) in acc.iter().zip(&cfgs) {
+        if !a.same {
+            machinery(&format!("{}: the default execution is not reproducible", cfg.key()));
+        }
+    }
+    println!("  root executions done after {:.1}s; starting {nshards} shard workers", t0.elapsed().as_secs_f64());
+    if acc.iter().all(|a| a.aborted == 0) {
+        let kids: Vec<(String, std::process::Child)> = (0..nshards)
+            .map(|shard| {
+                let tag = format!("{pid}-{shard}");
+                let child = spawn_worker(json!({"kind": "shard", "jobs": jobs, "shard": shard, "nshards": nshards, "wall_s": wall_per_cfg}), &tag);
+                (tag, child)
+            })
+            .collect();
+        for (tag, child) in kids {
+            absorb(&mut acc, wait_worker(child, &tag));
+        }
+    }
+    for (a, (cfg, bound)) in acc.into_iter().zip(cfgs) {
+        let (ex, aborted) = (a.ex, a.aborted);
         let mut st = Stats::new();
-        let t0 = Instant::now();
-        let mut aborted = 0u64;
-        let mut ex = Explored::default();
-        // root: determinism guard + the default execution (also compiles the simulator once)
-        let tag = format!("{pid}-root");
-        match wait_worker(spawn_worker(json!({"kind": "root", "cfg": cfg.json()}), &tag), &tag) {
-            WorkerEnd::Result(v) => {
-                if v["same"] != true {
-                    machinery(&format!("{}: the default execution is not reproducible", cfg.key()));
-                }
-                ex.merge(Explored::from_json(&v["explored"]));
-            }
-            crash => merge_end(&mut ex, crash, &mut aborted),
-        }
-        if aborted == 0 {
-            let kids: Vec<(String, std::process::Child)> = (0..nshards)
-                .map(|shard| {
-                    let tag = format!("{pid}-{shard}");
-                    let child = spawn_worker(json!({"kind": "shard", "cfg": cfg.json(), "bound": bound, "shard": shard, "nshards": nshards, "wall_s": wall_per_cfg}), &tag);
-                    (tag, child)
-                })
-                .collect();
-            for (tag, child) in kids {
-                merge_end(&mut ex, wait_worker(child, &tag), &mut aborted);
-            }
-        }
         println!(
-            "  [{}] bound={} executions={} discarded={} capped_runs={} aborted_workers={} committed_something={} distinct_outcomes={} max_decisions={} wall={:.1}s{}",
+            "  [{}] bound={} executions={} discarded={} capped_runs={} aborted_workers={} committed_something={} distinct_outcomes={} max_decisions={}{}",
             cfg.key(),
             bound,
             ex.executions,
@@ -629,7 +671,6 @@ pub fn run(rep: &mut Report, thorough: bool, replay: Option<Value>) {
             ex.committed_some,
             ex.outcomes.len(),
             ex.max_points,
-            t0.elapsed().as_secs_f64(),
             if ex.stopped_by_wall { " (WALL CAP)" } else { "" }
         );
         st.evaluations = ex.executions;
@@ -645,13 +686,15 @@ pub fn run(rep: &mut Report, thorough: bool, replay: Option<Value>) {
         if ex.capped_runs > 0 {
             st.cap(format!("{}: {} executions exceeded {} decisions", cfg.key(), ex.capped_runs, MAX_POINTS));
         }
+        if aborted > 0 || a.lost_shards > 0 {
+            st.cap(format!("{}: {} worker(s) aborted, {} shard(s) left unexplored", cfg.key(), aborted, a.lost_shards));
+        }
         if let Some((kind, msg, dec)) = ex.violation.clone() {
             // re-execute once more (in a fresh process) before reporting
             let tag = format!("{pid}-recheck");
-            let mut again = Explored::default();
-            let mut a2 = 0;
-            merge_end(&mut again, wait_worker(spawn_worker(json!({"kind": "replay", "cfg": cfg.json(), "decisions": dec}), &tag), &tag), &mut a2);
-            if again.violation.as_ref().map(|v| &v.0) != Some(&kind) {
+            let mut again = vec![Acc { ex: Explored::default(), aborted: 0, lost_shards: 0, same: true }];
+            absorb(&mut again, wait_worker(spawn_worker(json!({"kind": "replay", "jobs": [{"cfg": cfg.json(), "decisions": dec}]}), &tag), &tag));
+            if again[0].ex.violation.as_ref().map(|v| &v.0) != Some(&kind) {
                 machinery(&format!("{}: violation ({kind}) did not reproduce for decisions {dec:?}", cfg.key()));
             }
             let class = if kind == "abort" { format!("abort:{}", stable(&msg)) } else { kind.clone() };
@@ -659,4 +702,5 @@ pub fn run(rep: &mut Report, thorough: bool, replay: Option<Value>) {
         }
         rep.section(&cfg.key(), st);
     }
+    println!("  total wall {:.1}s", t0.elapsed().as_secs_f64());
 }
